@@ -418,3 +418,24 @@ Definition validate_infidelity_derivative (a : analysis_d) (all_c_ids : list str
   check (arraylike (s_kind (a_spectrum a)) && arraylike (a_omega_kind a)) TypeError ;;
   validate_spectrum (a_spectrum a) (n_selected (map n_id (p_n (a_pulse a))) (a_ids a)) (a_omega_len a) ;;
   validate_ids all_c_ids c_ids.
+
+(* ------------------------------------------------------------------------------------------- *)
+(* numeric.infidelity(which='correlations') when the pulse-correlation control matrix may be gone (cleanup('greedy')
+   keeps the pulse-correlation filter function): the identity component of every SELECTED noise operator has to be
+   removed with the control matrix, so a selected operator with non-zero trace needs it -> CalculationError           *)
+Record pc_infid_d := { pi_a : analysis_d; pi_cm_cached : bool; pi_ff_cached : bool;
+                       pi_traces : list bool (* per noise operator of the pulse: non-zero trace *) }.
+Fixpoint index_of (s : string) (l : list string) : nat :=
+  match l with [] => 0 | x :: r => if String.eqb x s then 0 else S (index_of s r) end.
+Definition selected_traces (all_ids : list string) (ids : option (list string)) (traces : list bool) : list bool :=
+  match ids with None => traces | Some l => map (fun s => nth (index_of s all_ids) traces false) l end.
+Definition validate_pc_infidelity (x : pc_infid_d) : verdict :=
+  let a := pi_a x in
+  let all_ids := map n_id (p_n (a_pulse a)) in
+  validate_ids all_ids (a_ids a) ;;
+  check (arraylike (s_kind (a_spectrum a)) && arraylike (a_omega_kind a)) TypeError ;;
+  check (omega_matches (a_pulse a) (a_omega_tag a)) ValueError ;;
+  check (pi_ff_cached x || pi_cm_cached x) CalculationError ;;                    (* get_pulse_correlation_filter_function *)
+  (if pi_cm_cached x || existsb (fun b => b) (selected_traces all_ids (a_ids a) (pi_traces x))
+   then check (pi_cm_cached x) CalculationError else ok) ;;                       (* get_pulse_correlation_control_matrix *)
+  validate_spectrum (a_spectrum a) (n_selected all_ids (a_ids a)) (a_omega_len a).
